@@ -69,6 +69,10 @@ _MON = {"ctx": None, "guard": None, "rebinds": {}, "sc": None, "coeffs": 0, "iwd
 # --------------------------------------------------------------------------
 # setup: guard + hooks
 # --------------------------------------------------------------------------
+class _Counter(worker.StepCounter):
+    TOOL = 3  # (worker.StepCounter uses 4)
+
+
 def _unit():
     return 8 * _MON["len"] + UNIT_PER_COEFF * _MON["coeffs"] + UNIT_BASE
 
@@ -309,9 +313,12 @@ def run_case(case, ctx):
 
     steps = None
     exceeded = False
-    use_counter = bool(case.get("armed")) and sys.monitoring.get_tool(worker.StepCounter.TOOL) is None
+    # own tool id, so that the analytic budget also applies when the runner re-decides a
+    # soft-timed-out case under its (much larger) fixed STEP_BUDGET -- then always armed
+    redeciding = sys.monitoring.get_tool(worker.StepCounter.TOOL) is not None
+    use_counter = (bool(case.get("armed")) or redeciding) and sys.monitoring.get_tool(_Counter.TOOL) is None
     if use_counter:
-        sc = worker.StepCounter(_budget())
+        sc = _Counter(_budget())
         _MON["sc"] = sc
         try:
             with sc:
